@@ -4,26 +4,26 @@ import json, os, subprocess, sys
 HERE = os.path.dirname(os.path.dirname(os.path.abspath(__file__)))
 
 TECH = {
- "C01": ("explicit-state BFS of the real generative_step over complete state graphs (path-bounded for 9-180 host scenarios) x both draw sides x two action representations, lock-step reference model, anti-twin environment alive", "§2 C01"),
- "C02": ("explicit-state BFS over complete / path-bounded state graphs, model-forbidden-success oracle (discovery, pivot, subnet and host firewall gates), both action representations", "§2 C02"),
- "C03": ("state invariant on every explored state + discovery transition oracle + reset() from every explored state", "§2 C03"),
- "C04": ("transition invariants on every edge + env-object exploration of reset() from every (state, steps) + after-reset differential against a fresh environment", "§2 C04"),
- "C05": ("reward oracle on every edge (both action representations) + per-host paid-once reachability over all paths of each state graph + cross-episode reward probe", "§2 C05"),
- "C06": ("terminal-flag oracle on every edge/state + product exploration (state, steps) under step()/reset()/generative_step() + plan walks on 16-200 host networks", "§2 C06"),
- "C07": ("two-sided scripted draw on every (state, action); paired-outcome comparison; draw counting through the draw seam; both action representations", "§2 C07"),
- "C08": ("observation oracle on every edge in partially and fully observable mode with an independent documented-layout decoder; initial observation also after a sibling scenario was built", "§2 C08"),
- "C09": ("independent documented-layout decoder applied to every explored state/observation, from-array round trips, initial states of generated (default/enlarged bounds) and all shipped scenarios", "§3 C09"),
- "C10": ("exhaustive enumeration of every action-space member x 5 representations (+ enumerated sampler) and every explored observation x 8 modes; generated-scenario observations", "§3 C10"),
- "C11": ("exhaustive enumeration of flat indices and parameterised vectors vs scenario text (incl. decode-twice); mask after every BFS-tree history via real step()/reset(); cross-process mapping fingerprints", "§3 C11"),
- "C12": ("8-mode lock-step comparison on every edge of the state graph (actions in each mode's own representation) + step histories + real-seed runs", "§3 C12"),
- "C13": ("byte-snapshot purity oracle around every generative_step + step()==generative_step() from every explored state + real-history differential against a pristine environment", "§3 C13"),
- "C14": ("set-iteration-order exploration of the generator + cross-process PYTHONHASHSEED differential + all generation-call histories (len<=3) + seeded trajectory replays incl. predecessor independence", "§3 C14"),
+ "C01": ("explicit-state BFS of the real generative_step over complete state graphs (path-bounded for 9-180 host scenarios) x both draw sides x two action representations, lock-step reference model, anti-twin environment alive + exhaustive API-sequence exploration of the environment object (all two-episode route pairs, all one-perturbation programs) against the pristine state graph", "§2 C01"),
+ "C02": ("explicit-state BFS over complete / path-bounded state graphs, model-forbidden-success oracle (discovery, pivot, subnet and host firewall gates), both action representations + exhaustive API-sequence exploration of the environment object (all two-episode route pairs, all one-perturbation programs) against the pristine state graph", "§2 C02"),
+ "C03": ("state invariant on every explored state + discovery transition oracle + reset() from every explored state + exhaustive API-sequence exploration of the environment object (all two-episode route pairs, all one-perturbation programs) against the pristine state graph", "§2 C03"),
+ "C04": ("transition invariants on every edge + env-object exploration of reset() from every (state, steps) + after-reset differential against a fresh environment + exhaustive API-sequence exploration of the environment object (all two-episode route pairs, all one-perturbation programs) against the pristine state graph", "§2 C04"),
+ "C05": ("reward oracle on every edge (both action representations) + per-host paid-once reachability over all paths of each state graph + cross-episode reward probe + exhaustive API-sequence exploration of the environment object (all two-episode route pairs, all one-perturbation programs) against the pristine state graph", "§2 C05"),
+ "C06": ("terminal-flag oracle on every edge/state + product exploration (state, steps) under step()/reset()/generative_step() + plan walks on 16-200 host networks + exhaustive API-sequence exploration of the environment object (all two-episode route pairs, all one-perturbation programs) against the pristine state graph", "§2 C06"),
+ "C07": ("two-sided scripted draw on every (state, action); paired-outcome comparison; draw counting through the draw seam; both action representations + exhaustive API-sequence exploration of the environment object (all two-episode route pairs, all one-perturbation programs) against the pristine state graph", "§2 C07"),
+ "C08": ("observation oracle on every edge in partially and fully observable mode with an independent documented-layout decoder; initial observation also after a sibling scenario was built + exhaustive API-sequence exploration of the environment object (all two-episode route pairs, all one-perturbation programs) against the pristine state graph", "§2 C08"),
+ "C09": ("independent documented-layout decoder applied to every explored state/observation, from-array round trips, initial states of generated (default/enlarged bounds), re-bound and all shipped scenarios; fully observable observations decoded as well", "§3 C09"),
+ "C10": ("exhaustive enumeration of every action-space member x 5 representations (+ enumerated sampler) and every explored observation x 8 modes; generated-scenario observations incl. sequentially built and coexisting same-layout environments", "§3 C10"),
+ "C11": ("exhaustive enumeration of flat indices and parameterised vectors vs scenario text (incl. decode-twice); mask after every BFS-tree history via real step()/reset(); cross-process mapping fingerprints + exhaustive API-sequence exploration of the environment object (all two-episode route pairs, all one-perturbation programs) against the pristine state graph", "§3 C11"),
+ "C12": ("8-mode lock-step comparison on every edge of the state graph (actions in each mode's own representation) + step histories + real-seed runs + exhaustive API-sequence exploration of the environment object (all two-episode route pairs, all one-perturbation programs) against the pristine state graph", "§3 C12"),
+ "C13": ("byte-snapshot purity oracle around every generative_step + step()==generative_step() from every explored state + real-history differential against a pristine environment + exhaustive API-sequence exploration of the environment object (all two-episode route pairs, all one-perturbation programs) against the pristine state graph", "§3 C13"),
+ "C14": ("set-iteration-order exploration of the generator + cross-process PYTHONHASHSEED differential + all generation-call histories (len<=3) + seeded trajectory replays incl. predecessor independence + exhaustive API-sequence exploration of the environment object (all two-episode route pairs, all one-perturbation programs) against the pristine state graph", "§3 C14"),
  "C15": ("deviation-bounded stateless exploration of the generator's RNG choice points (CHESS-style, one reused generator object) with well-formedness oracle and exact livelock confirmation", "§4 C15"),
  "C16": ("model closure plan replayed on the real environment for every explored generation and shipped file; closure oracle cross-checked against complete state graphs", "§4 C16"),
- "C17": ("exhaustive enumeration of a valid-document grammar x format styles; independent reader vs loaded Scenario; C01/C02 sweep on the YAML binding for rule enforcement", "§4 C17"),
+ "C17": ("exhaustive enumeration of a valid-document grammar x format styles; independent reader vs loaded Scenario; C01/C02/C05 sweep on the YAML binding (incl. 36-host files) for rule enforcement", "§4 C17"),
  "C18": ("single-fault catalogue (49 operators) applied at every site of every base document (one reused file path); loader must raise", "§4 C18"),
  "C19": ("enumeration of all order-preserving interleavings (switch-bounded) of two environments' 10-operation programs vs fresh-interpreter solo traces", "§3 C19"),
- "C20": ("exact optimum by DP / value iteration over complete state graphs + exhaustive and structured topology enumeration through the public env API vs brute-force minimum connecting set", "§3 C20"),
+ "C20": ("exact optimum by DP / value iteration over complete state graphs (episodes started after several pre-histories on the same object) + exhaustive and structured topology enumeration through the public env API vs brute-force minimum connecting set", "§3 C20"),
 }
 TEXT = {
  "sweep": "Every reachable state of every scenario in a declared finite family is visited on the real code and every action is executed in it with the chance draw on both sides; the property's oracle is evaluated on each transition. Exhaustive within the family/bounds recorded in the evidence; says nothing about scenarios outside the family grammar.",
